@@ -63,6 +63,10 @@ impl PropCheck for C06 {
     fn case_from_json(&self, v: &Value) -> Result<Case, String> {
         serde_json::from_value(v["case"].clone()).map_err(|e| e.to_string())
     }
+
+    fn owns_case(&self, v: &Value) -> bool {
+        v["engine_stage"].as_bool() != Some(true)
+    }
 }
 
 /// Focused scenarios over a SMALL data object (so that the 1-3 random edits of one step often touch two of the few
@@ -282,6 +286,10 @@ impl PropCheck for C06Engine {
     fn case_from_json(&self, v: &Value) -> Result<EngineCase, String> {
         serde_json::from_value(v["case"].clone()).map_err(|e| e.to_string())
     }
+
+    fn owns_case(&self, v: &Value) -> bool {
+        v["engine_stage"].as_bool() == Some(true)
+    }
 }
 
 pub fn eval_engine_case(w: &mut Worker, c: &EngineCase) -> Result<Outcome, String> {
@@ -448,6 +456,7 @@ pub fn run(tier: Tier, seed: u64, findings: &Findings) -> i32 {
     let cases = tier.pick(30_000, 400_000);
     report.merge(engine::run_generated(&check, &cfg, cases, 8, 16, findings, 0));
     // the real template engine (tmpl/index.ts) over focused templates
+    report.merge(super::run_regress(&C06Engine, &cfg, findings));
     report.merge(engine::run_generated(&C06Engine, &cfg, tier.pick(12_000, 300_000), 8, 16, findings, 1));
     engine::finish(
         Finish {
